@@ -151,10 +151,25 @@ func (s *Store) CACheckAndSetConfig(idx, cidx uint64, config *structs.CAConfigur
 	tx := s.db.WriteTxn(idx)
 	defer tx.Abort()
 
+	if err := caCheckConfigIndexTxn(tx, cidx); err != nil {
+		return false, err
+	}
+
+	if err := s.caSetConfigTxn(idx, tx, config); err != nil {
+		return false, err
+	}
+
+	err := tx.Commit()
+	return err == nil, err
+}
+
+// caCheckConfigIndexTxn returns an error unless the stored CA configuration's
+// ModifyIndex equals cidx (zero when there is none).
+func caCheckConfigIndexTxn(tx ReadTxn, cidx uint64) error {
 	// Check for an existing config
 	existing, err := tx.First(tableConnectCAConfig, "id")
 	if err != nil {
-		return false, fmt.Errorf("failed CA config lookup: %s", err)
+		return fmt.Errorf("failed CA config lookup: %s", err)
 	}
 
 	// If the existing index does not match the provided CAS
@@ -162,15 +177,9 @@ func (s *Store) CACheckAndSetConfig(idx, cidx uint64, config *structs.CAConfigur
 	// return early here.
 	e, ok := existing.(*structs.CAConfiguration)
 	if (ok && e.ModifyIndex != cidx) || (!ok && cidx != 0) {
-		return false, errors.Errorf("ModifyIndex did not match existing")
+		return errors.Errorf("ModifyIndex did not match existing")
 	}
-
-	if err := s.caSetConfigTxn(idx, tx, config); err != nil {
-		return false, err
-	}
-
-	err = tx.Commit()
-	return err == nil, err
+	return nil
 }
 
 func (s *Store) caSetConfigTxn(idx uint64, tx WriteTxn, config *structs.CAConfiguration) error {
@@ -268,15 +277,46 @@ func (s *Store) CARootSetCAS(idx, cidx uint64, rs []*structs.CARoot) (bool, erro
 	tx := s.db.WriteTxn(idx)
 	defer tx.Abort()
 
-	if err := caRootSetCASTxn(tx, idx, cidx, rs); err != nil {
+	ok, err := caRootCheckAndSetTxn(tx, idx, cidx, rs)
+	if err != nil || !ok {
 		return false, err
 	}
 
-	err := tx.Commit()
+	err = tx.Commit()
+	return err == nil, err
+}
+
+// CARootsAndConfigCAS replaces the CA roots (check-and-set on the roots table
+// index) and the CA configuration (check-and-set on its ModifyIndex) in one
+// transaction: either both are applied or neither is.
+func (s *Store) CARootsAndConfigCAS(idx, cidx uint64, rs []*structs.CARoot, config *structs.CAConfiguration) (bool, error) {
+	tx := s.db.WriteTxn(idx)
+	defer tx.Abort()
+
+	ok, err := caRootCheckAndSetTxn(tx, idx, cidx, rs)
+	if err != nil || !ok {
+		return false, err
+	}
+
+	if err := caCheckConfigIndexTxn(tx, config.ModifyIndex); err != nil {
+		return false, err
+	}
+	if err := s.caSetConfigTxn(idx, tx, config); err != nil {
+		return false, err
+	}
+
+	err = tx.Commit()
 	return err == nil, err
 }
 
 func caRootSetCASTxn(tx WriteTxn, idx, cidx uint64, rs []*structs.CARoot) error {
+	_, err := caRootCheckAndSetTxn(tx, idx, cidx, rs)
+	return err
+}
+
+// caRootCheckAndSetTxn returns false without an error, and without writing
+// anything, when the index of the roots table does not match cidx.
+func caRootCheckAndSetTxn(tx WriteTxn, idx, cidx uint64, rs []*structs.CARoot) (bool, error) {
 	// There must be exactly one active CA root.
 	activeCount := 0
 	for _, r := range rs {
@@ -285,24 +325,24 @@ func caRootSetCASTxn(tx WriteTxn, idx, cidx uint64, rs []*structs.CARoot) error 
 		}
 	}
 	if activeCount != 1 {
-		return fmt.Errorf("there must be exactly one active CA")
+		return false, fmt.Errorf("there must be exactly one active CA")
 	}
 
 	// Get the current max index
 	if midx := maxIndexTxn(tx, tableConnectCARoots); midx != cidx {
-		return nil
+		return false, nil
 	}
 
 	// Go through and find any existing matching CAs so we can preserve and
 	// update their Create/ModifyIndex values.
 	for _, r := range rs {
 		if r.ID == "" {
-			return ErrMissingCARootID
+			return false, ErrMissingCARootID
 		}
 
 		existing, err := tx.First(tableConnectCARoots, "id", r.ID)
 		if err != nil {
-			return fmt.Errorf("failed CA root lookup: %s", err)
+			return false, fmt.Errorf("failed CA root lookup: %s", err)
 		}
 
 		if existing != nil {
@@ -316,22 +356,22 @@ func caRootSetCASTxn(tx WriteTxn, idx, cidx uint64, rs []*structs.CARoot) error 
 	// Delete all
 	_, err := tx.DeleteAll(tableConnectCARoots, "id")
 	if err != nil {
-		return err
+		return false, err
 	}
 
 	// Insert all
 	for _, r := range rs {
 		if err := tx.Insert(tableConnectCARoots, r); err != nil {
-			return err
+			return false, err
 		}
 	}
 
 	// Update the index
 	if err := tx.Insert(tableIndex, &IndexEntry{tableConnectCARoots, idx}); err != nil {
-		return fmt.Errorf("failed updating index: %s", err)
+		return false, fmt.Errorf("failed updating index: %s", err)
 	}
 
-	return nil
+	return true, nil
 }
 
 // CAProviderState is used to pull the built-in provider states from the snapshot.
